@@ -7220,6 +7220,14 @@ fn stream_yaml_string_value<Out: core::fmt::Write>(
     // For quoted strings, preserve the quoting style
     match s {
         YamlString::DoubleQuoted { .. } => stream_yaml_double_quoted(out, &str_val),
+        // A single-quoted scalar has no escape for a line break: a decoded
+        // value that contains one (a folded multi-line source scalar) written
+        // back between single quotes on one line would fold to a space on
+        // re-read, so it falls back to double quotes (`\n`), like the DOM
+        // writer's `can_single_quote`.
+        YamlString::SingleQuoted { .. } if str_val.contains(['\n', '\r']) => {
+            stream_yaml_double_quoted(out, &str_val)
+        }
         YamlString::SingleQuoted { .. } => stream_yaml_single_quoted(out, &str_val),
         YamlString::Unquoted { .. } => {
             // #996: checked before the verbatim-echo fallback below,
@@ -7309,6 +7317,13 @@ fn needs_yaml_quoting(s: &str) -> bool {
 
     // Check if it looks like a number
     if looks_like_yaml_number(s) {
+        return true;
+    }
+
+    // Whatever the loader itself would not read back as a string: the
+    // core-schema spellings the checks above miss (`0x1F`, `0o17`, `.5`,
+    // `+.inf`).
+    if !matches!(resolve_plain(s), ResolvedScalar::Str) {
         return true;
     }
 
